@@ -49,6 +49,7 @@ func init() {
 		Explain: "Decides C14's structural clauses: Create sets the event/query cut-offs to the matching snapshot clock + 1 and the handlers drop LTime < cut-off (the accepted (op,offset) pairs drop every t <= last); every send of a UserEvent or *Query on the application channel anywhere in the module is in handleUserEvent/handleQuery and edge-dominated by LTime >= cut-off (gossip, state sync and join replay all funnel there); cut-offs are only raised; the snapshotter records the time of every passing user event/query newer than the last recorded one and sits upstream of the application. Not covered: the <=500 ms unflushed tail at a crash.",
 		Run:     runC14,
 		Mutants: []Mutant{
+			{Name: "replay-stops-at-leave", File: "serf/snapshot.go", Func: "func (s *Snapshotter) replay(", Old: "\t\t\ts.lastQueryClock = 0\n", New: "\t\t\ts.lastQueryClock = 0\n\t\t\tbreak\n", Expect: "R6"},
 			{Name: "replay-applies-torn-line", File: "serf/snapshot.go", Func: "func (s *Snapshotter) replay(", Old: "\t\tif err != nil {\n\t\t\tbreak\n\t\t}\n", New: "\t\tif err != nil && line == \"\" {\n\t\t\tbreak\n\t\t}\n\t\tif err != nil {\n\t\t\tline += \"\\n\"\n\t\t}\n", Expect: "R6"},
 			{Name: "clock-field-after-append", File: "serf/snapshot.go", Func: "func (s *Snapshotter) processQuery(", Old: "\ts.lastQueryClock = q.LTime\n", New: "", Old2: "\ts.tryAppend(fmt.Sprintf(\"query-clock: %d\\n\", q.LTime))\n", New2: "\ts.tryAppend(fmt.Sprintf(\"query-clock: %d\\n\", q.LTime))\n\ts.lastQueryClock = q.LTime\n", Expect: "R5"},
 			{Name: "cutoff-no-plus-one", File: "serf/serf.go", Func: "func Create(", Old: "serf.eventMinTime = oldEventClock + 1", New: "serf.eventMinTime = oldEventClock", Expect: "R1"},
